@@ -253,14 +253,16 @@ fn header_sweep(seeds: &[Seed], rng: &mut Rng, every: usize) -> Vec<Mutant> {
                     n += 1; if n % every != 0 { continue; }
                     let mut m = b.clone(); put32(&mut m, k, v);
                     let mut mu = g.mk(si, "hdr32", format!("hdr32@{}={:#x}", k, v), m);
-                    if mu.action == "extract" && n % 2 == 0 { mu.action = "decompile"; }
+                    if n % 8 != 0 { mu.action = "read"; mu.opts = vec![]; }
                     out.push(mu);
                 }
             }
             for v in [0u32, 1, 0x7FFF, 0x8000, 0xFFFF] {
                 n += 1; if n % every != 0 { continue; }
                 let mut m = b.clone(); put16(&mut m, k, v);
-                out.push(g.mk(si, "hdr16", format!("hdr16@{}={:#x}", k, v), m));
+                let mut mu = g.mk(si, "hdr16", format!("hdr16@{}={:#x}", k, v), m);
+                if n % 8 != 0 { mu.action = "read"; mu.opts = vec![]; }
+                out.push(mu);
             }
             k += 2;
         }
@@ -487,7 +489,7 @@ fn run_inproc(seed: &Seed, bytes: &[u8], action: &str, opts: &[&str], xdir: &Pat
         let mut truth = scope.truth();
         let mapfile = match seed.tool.as_str() { "truanm" => Some("any.anmm"), "trustd" => Some("any.stdm"), "truecl" => Some("any.eclm"),
             "trumsg" if !seed.flags.iter().any(|f| f == "--mission" || f == "--ending") => Some("any.msgm"), _ => None };
-        if let Some(mf) = mapfile { if truth.load_mapfile(Path::new(&format!("{}/{}", map_dir, mf)), game).is_err() { return false; } }
+        if action != "read" { if let Some(mf) = mapfile { if truth.load_mapfile(Path::new(&format!("{}/{}", map_dir, mf)), game).is_err() { return false; } } }
         let emitter = truth.ctx().emitter;
         let mut truth = match truth.validate_defs() { Ok(t) => t, Err(_) => return false };
         let mut reader = truth::io::BinReader::from_reader(emitter, &fname, std::io::Cursor::new(bytes.to_vec()));
@@ -500,6 +502,11 @@ fn run_inproc(seed: &Seed, bytes: &[u8], action: &str, opts: &[&str], xdir: &Pat
                 if !ok && std::env::var("C16_DEBUG").is_ok() { eprintln!("{}", truth.get_captured_diagnostics().unwrap_or_default()); }
                 return ok;
             },
+            ("truanm", "read") => return truth::AnmFile::read_from_stream(&mut reader, game, bytes.len() % 2 == 0).is_ok(),
+            ("trustd", "read") => return truth::StdFile::read_from_stream(&mut reader, game).is_ok(),
+            ("trumsg", "read") if seed.flags.iter().any(|f| f == "--mission") => return truth::MissionMsgFile::read_from_stream(&mut reader, game).is_ok(),
+            ("trumsg", "read") => return truth::MsgFile::read_from_stream(&mut reader, game, if seed.flags.iter().any(|f| f == "--ending") { LanguageKey::End } else { LanguageKey::Msg }).is_ok(),
+            ("truecl", "read") => return truth::EclFile::read_from_stream(&mut reader, game).is_ok(),
             ("truanm", _) => {
                 let anm = match truth::AnmFile::read_from_stream(&mut reader, game, false) { Ok(a) => a, Err(_) => return false };
                 truth.decompile_anm(game, &anm, &dopts)
@@ -597,7 +604,8 @@ fn lib_master(manifest: &str, seeds: &[Seed], muts: &[Mutant], budget: usize, ti
         let c = per_class.entry(o.class.clone()).or_insert(0); *c += 1;
         if *c > 2 { continue; }
         let m = &muts[*i];
-        let o2 = run_one(&dir, &seeds[m.seed], &m.bytes, m.action, &m.opts, Some(false));
+        let cli_action = if m.action == "read" { "decompile" } else { m.action };
+        let o2 = run_one(&dir, &seeds[m.seed], &m.bytes, cli_action, &m.opts, Some(false));
         if !o2.ok { confirmed += 1; } else { lib_only += 1; }
         if o.class.contains("-timeout") && o2.ok { o.ok = true; }   // a timeout has to reproduce
     }
